@@ -55,6 +55,12 @@ CHECKS = {
         note="Trusted: z3, CPython, rsx (symbolic parse via placeholder text, symre), the reference binder pybind (validated against symtable on generated programs). Five classes of genuine scoping defects found here are listed in known_findings.json (comprehension, lambda, nonlocal, default-expression, walrus-in-comprehension); every other discrepancy is a VIOLATION. Bound: corpus K01, one-letter identifiers.",
         design="§5 C02",
     ),
+    "C01": dict(
+        level="other",
+        text="Solver-decided, path-exhaustive within stated bounds (Pattern B + kernel): rename.Rename(...).get_changes with symbolic identifier spellings and a symbolic fresh new name over corpus K01 (z3 enumerates every equality pattern among the slots and every further character distinction rope makes; the renamed occurrence ranges over all slot occurrences); the changes are applied to the symbolic texts and, at the path witness, the result must parse, group the identifier tokens into bindings exactly as before (alpha-equivalence under the reference binder) and print the same output / raise the same exception when run; RefactoringError is an accepted refusal. Kernel: codeanalyze.ChangeCollector on fully symbolic text with up to three symbolic non-overlapping edits in arbitrary insertion order, result equal to the specification splice (solver query).",
+        note="Trusted: z3, CPython (running the programs), rsx, pybind. Genuine defects found are listed in known_findings.json (default-expression, class-body fall-through, comprehension, lambda, nonlocal, import-then-rebind). Bound: corpus K01, one-letter identifiers, docs=False.",
+        design="§5 C01",
+    ),
 }
 
 NOT_YET = "check not built yet (see DESIGN.md §5 for the planned decision procedure)"
